@@ -77,7 +77,7 @@ def run_case(ck, case, reqs, pending):
     x = np.array([ph.tension[rg] for rg in ph.ridges])
     err = float(np.max(np.abs(x - tau)))
     coef_tol = physical.coef_tolerance(sc, ph, fit)
-    solver_tol = {None: 1e-8, "lsq": 1e-4, "lsq_linear": 1e-6}[method]
+    solver_tol = {None: 1e-8, "lsq": 1e-4, "lsq_linear": 1e-5}[method]
     smin = ph.sigma[0]
     tol = (2 * coef_tol * math.sqrt(n) * float(np.max(tau)) + solver_tol) / smin
     ck.dist["worst_error_over_tolerance"] = max(ck.dist.get("worst_error_over_tolerance", 0.0), (err / tol) if not ph.d2 else 0.0)
